@@ -14,7 +14,7 @@ pub fn meta() -> Meta {
         assumptions: &["f64 sin of the host libm is accurate to < 1e-12 s in the periodic term", "which time argument (TAI-based or ET-based seconds past J2000) feeds the mean anomaly is not fixed by the statement; the <= 11 ns ambiguity is inside the 30 ns tolerance"],
         mandatory: &["to-dyn/ET", "to-dyn/TDB", "from-dyn/ET", "from-dyn/TDB", "pair/order", "phase-sweep", "far/beyond-5000y", "before-j2000"],
         thorough_scale: 50,
-        exhaustive_part: "phase sweep of one anomalistic year at 1/2000 year steps x six uniform scales x {ET,TDB}",
+        exhaustive_part: "every nanosecond of +-200 us around the zero of the ET and of the TDB reading, both directions; phase sweep of one anomalistic year at 1/2000 year steps x six uniform scales x {ET,TDB}",
     }
 }
 
@@ -178,6 +178,21 @@ pub fn run(cfg: &Cfg, rep: &mut Rep) {
                 check(rep, &w, t, su, dy);
                 check_from(rep, &w, t - j2k, dy, su);
             }
+        }
+    }
+    // every nanosecond of the 400 us around the zero of each dynamical reading (the instant where TT-past-J2000 and the
+    // ET / TDB reading change sign, 70 us apart): sign handling and the x == -x equality of durations live here
+    for dy in dyns {
+        let t0 = w.to_tai(0, dy);
+        for x in -200_000i128..=200_000 {
+            i += 1;
+            if i % n != sh {
+                continue;
+            }
+            rep.class("zero-crossing-scan");
+            let su = UNIFORM[(x.rem_euclid(6)) as usize];
+            check(rep, &w, t0 + x, su, dy);
+            check_from(rep, &w, x, dy, su);
         }
     }
     let mut r = Rng::new(cfg.seed, 0x0700 + sh as u64);
